@@ -22,13 +22,14 @@ def rows(pattern):
 
 r1, r2, ro = rows('/verif/seeded/C*/meta.json'), rows('/verif/seeded/r2_*/meta.json'), rows('/verif/seeded/own_*/meta.json')
 r3 = rows('/verif/seeded/r3_*/meta.json')
+r4 = rows('/verif/seeded/r4_*/meta.json')
 readme = """# Seeded property-breaking changes
 
 Each directory holds one change to mariomulansky/PySpike: `patch.diff` (rebased on the /repo HEAD the checks were validated
 against; apply with `git -C /repo apply <file>`, undo with `git -C /repo checkout -- .`), `demo.py` (exits 0 on the clean tree,
 non-zero with the change, run as `PYTHONPATH=<tree> /venv/bin/python demo.py`), `notes.md` (the author's description) and
 `meta.json` (what it needs to manifest, what was run, which checks fired at the quick tier, seed 0).  All of them keep the
-repository's 49 baseline tests green.  `Cxx_k` = round 1, `r2_Cxx_k` = round 2, `r3_Axx_j` = round 3 (all written by independent sub-agents that
+repository's 49 baseline tests green.  `Cxx_k` = round 1, `r2_Cxx_k` = round 2, `r3_Axx_j` = round 3, `r4_Bxx_j` = round 4 (all written by independent sub-agents that
 were given only the text of one property and a scratch worktree - nothing from /verif), `own_*` = exact reverses of the
 repository repairs of DESIGN.md section 8 (written by the framework author).
 
@@ -52,6 +53,12 @@ repository repairs b41ad30 / 96fd8b7 make every function object a float array; t
 | change | what it is | property it breaks most directly (bold = that check fired) | other checks that fired |
 |---|---|---|---|
 """ % len(r3) + "\n".join(r3) + """
+
+## Round 4 (%d changes; agents were told which ideas rounds 1-3 had used and asked for different ones: magnitude- or sign-dependent arithmetic, truthiness of 0, permutation bugs, mutable defaults, precedence slips, normalisation by a coincidentally equal count, numpy-scalar type checks, C float variables, uninitialised buffers)
+
+| change | what it is | property it breaks most directly (bold = that check fired) | other checks that fired |
+|---|---|---|---|
+""" % len(r4) + "\n".join(r4) + """
 
 ## Reverse-repair changes (%d)
 
